@@ -57,6 +57,15 @@ Next == Load \/ Run
 Spec == Init /\ [][Next]_<<m, cs>>
 
 Inv == m.st = "load" \/ MachineInv(m)
+
+(* C10, "nothing observable depends on time": how the input bytes are cut into the chunks that successive read calls return  *)
+(* (a line arriving in pieces, several lines at once) is not observable: the run on the input delivered as ONE chunk ends the   *)
+(* same way.  Checked for runs without an injected read fault (a fault position is counted in read calls).                      *)
+RECURSIVE Concat(_)
+Concat(q) == IF q = <<>> THEN "" ELSE Head(q) \o Concat(Tail(q))
+ChunkIndependent ==
+  m.st \in {"load", "run"} \/ cs.failAt # 0 \/ cs.inp = <<>> \/
+  LET one == RunAll(InitQuiet(cs.prog, <<Concat(cs.inp)>>, cs.budget, 0)) IN one.st = m.st /\ one.out = m.out
 NamesInv == NM!NamesOK
 StepOK == [][m.st # "load" => StepProps(m, m')]_<<m, cs>>
 
